@@ -50,7 +50,7 @@ def judge (searched : Bool) (model : Schema) (impl : List (Option Ty × Bool)) :
         match f.1 with
         | none => "unsupported"
         | some it =>
-          if m.1 != Ty.null && it != m.1 then s!"bad:type col {i} model={showTy m.1} impl={showTy it}"
+          if m.1 != Ty.null && it != Ty.null && it != m.1 then s!"bad:type col {i} model={showTy m.1} impl={showTy it}"
           else if !f.2 && m.2 then
             (if searched then "unsupported" else s!"bad:nullability col {i}: implementation declares NOT NULL, model {showField m}")
           else go (i + 1) ms fs
